@@ -339,6 +339,15 @@ def _run_child(case):
             res = do_characterize(env, op["cls"], op["rec"])
         elif k == "structure":
             res = do_structure(env, op["cls"])
+        elif k == "prime_registry":
+            # priming only: loading an embedded registry validates / characterises every plasmid
+            mod, cls = {"ytk": ("ytk", "YTKRegistry"), "ptk": ("ytk", "PTKRegistry"), "cidar": ("cidar", "CIDARRegistry"), "ecoflex": ("ecoflex", "EcoFlexRegistry"), "plant": ("plant", "PlantRegistry")}[op["kind"]]
+            try:
+                reg = getattr(__import__("moclo.registry." + mod, fromlist=["x"]), cls)()
+                first = next(iter(reg))
+                res = {"loaded": reg[first].id == first, "n": len(reg)}
+            except Exception as exc:
+                res = _canon_exc(exc)
         elif k == "assemble":
             vec = env.handles.get(op["vec"])
             mods = [env.handles.get(h) for h in op["mods"]]
@@ -396,6 +405,8 @@ def execute(case):
                 stats["oracle_forks"] += forked
             else:
                 handle_of.pop(op["h"], None)
+        elif k == "prime_registry":
+            probes["registry-loaded-before-queries"] += 1
         elif k == "drop":
             handle_of.pop(op["h"], None)
             probes["drop-handle"] += 1
@@ -730,6 +741,8 @@ def gen_case(spec):
             bases = [c for c in pool + [d["id"] for d in defined] if (c in W["abstract_bases"]) or g.random() < 0.15]
             base = g.choice(bases) if bases else g.choice(W["abstract_bases"])
             add(client, {"op": "characterize", "cls": base, "rec": g.choice(recs)})
+        elif x < 0.885:
+            add(client, {"op": "prime_registry", "kind": g.choices(["ptk", "cidar", "ytk", "ecoflex", "plant"], [5, 2, 2, 2, 1])[0]})
         elif x < 0.90:
             add(client, {"op": "structure", "cls": pick_class()})
         elif x < 0.96 and len(defined) < 4:
